@@ -21,12 +21,16 @@ def contracts(tier):
 
 def extra_obligations(tier):
     from contracts import codegen_c01, assemble_tools_c08 as A
-    return codegen_c01.results(tier) + [solve.custom_result('assemble_tools_cy:assemble_vector[ravel-lemma]', A.F, 'assemble_vector / next_lexicographic', A.ravel_successor_lemma)]
+    from contracts import vform_rewrite as R
+    # the kernels are compared with the denotation of the expression TREE; that the tree built by the surface syntax (grad, div, curl,
+    # inner, dot, slices, ...) denotes the mathematical operator is the rule set shared with C06
+    return codegen_c01.results(tier) + [solve.custom_result('assemble_tools_cy:assemble_vector[ravel-lemma]', A.F, 'assemble_vector / next_lexicographic', A.ravel_successor_lemma),
+                                        solve.custom_result('vform:operator-meaning', R.FV, 'grad / div / curl / inner / dot / tensor algebra / slices', R.rule_obligations)]
 
 
 MANIFEST = {
     'category': 'other',
     'technique': 'per enumerated form: parse-back of the generated Cython kernel (symbolic execution of precompute/kernel text over sympy) against the denotation of the form; compiled assemblers compared with an independent quadrature of the denotation (bounded)',
     'text': 'For each of the enumerated forms (scalar and vector-valued, mass/stiffness/convection/div/curl/Hessian/space-time/surface, parametric and physical fields, parameters, builtin functions, two-space Petrov-Galerkin): the integrand accumulated by the generated kernel, with the precomputed fields it reads, equals the mathematical value of the un-finalized form for all values of basis-function, field and geometry jets (exact sympy identity); the compiled assembler builds, loads and its matrix/vector equals the Gauss-Legendre sum (max degree+1 nodes per span) of that value for every pair of basis functions on random mixed-degree spaces with repeated knots and non-affine B-spline geometries (bounded, 1e-9 relative).',
-    'note': 'per enumerated program only; boundary forms and derivatives of callable fields outside the domain; source-field slot layout and __init__ glue covered by the bounded tier only.',
+    'note': 'per enumerated program only; the meaning of the surface operators (grad, div, curl, inner, dot, slices on all shapes) is the rule set shared with C06; boundary forms and derivatives of callable fields outside the domain; source-field slot layout and __init__ glue covered by the bounded tier only.',
 }
